@@ -5,7 +5,9 @@
             (R = defects repaired, A = as_is)
    cmd LOC: queries = filehex:line:col;...   ->  PP fields, then per query  R=<pos> \t A=<pos>
             pos = filehex:line:col:ub | NOPROV ; and  REC=<0|1><0|1>  (tokenizer recognises exactly the
-            emitted #line texts, for R and A) *)
+            emitted #line texts, for R and A)
+   cmd FRAME: FRAME \t <len> \t <max>   ->  for m = 0..max (number of next() calls on a frame of <len> instructions):
+            <what diag_info_from_position names: index | none | ub>, ';' separated   (PP/FramePos.v) *)
 open Pp_model
 open Proto
 
@@ -34,6 +36,11 @@ let parse_files s =
 
 let () = iter_lines (fun line ->
   match split_tab line with
+  | "FRAME" :: len :: max :: _ ->
+    let len = int_of_string len and max = int_of_string max in
+    String.concat ";" (List.init (max + 1) (fun m ->
+      match fdiag (nat_of_int len) (fafter (nat_of_int len) (nat_of_int m)) with
+      | DNone -> "none" | DIndex i -> string_of_int (int_of_nat i) | DUB -> "ub"))
   | cmd :: mainhex :: fileshex :: rest ->
     let files = parse_files fileshex in
     let main = zs (bytes_of_hex mainhex) in
